@@ -6,6 +6,7 @@ import (
 	"fmt"
 	"os"
 	"runtime"
+	"strings"
 	"sync"
 	"testing"
 	"time"
@@ -47,7 +48,36 @@ func c15GenFetch(t *rapid.T) *c15FetchCase {
 	return c
 }
 
+var c15FetchWatchdog = 30 * time.Second
+
+// c15CheckFetch runs the case under a watchdog: a reader that never returns
+// (it waits for the fetch while the fetch waits for it) is a deadlock.
 func c15CheckFetch(c *c15FetchCase) (v *vfkit.Violation, slow int) {
+	type res struct {
+		v    *vfkit.Violation
+		slow int
+	}
+	done := make(chan res, 1)
+	go func() {
+		v, slow := c15RunFetch(c)
+		done <- res{v, slow}
+	}()
+	select {
+	case r := <-done:
+		return r.v, r.slow
+	case <-time.After(c15FetchWatchdog):
+		buf := make([]byte, 1<<20)
+		dump := string(buf[:runtime.Stack(buf, true)])
+		if strings.Contains(dump, "GetPodResources") || strings.Contains(dump, "goFetchPodResources") {
+			c15FetchWatchdog = 5 * time.Second // re-executions while shrinking need not wait that long
+			return &vfkit.Violation{Property: "C15", Clause: "no request deadlocks: a reader of pod resources that are being fetched returns once the fetch completes",
+				Signature: "deadlock:pod-resource-fetch", Detail: "readers did not return; goroutines:\n" + dump}, 1
+		}
+		panic("INCONCLUSIVE: pod resource fetch case timed out without a blocked reader")
+	}
+}
+
+func c15RunFetch(c *c15FetchCase) (v *vfkit.Violation, slow int) {
 	dir := c10Dir()
 	defer os.RemoveAll(dir)
 	cch, err := NewCache(Options{CacheDir: dir})
